@@ -113,11 +113,19 @@ class C17(Property):
             'another instance and then mutated on either one; exhaustive: all histories of <= 2 commands '
             '(thorough: also all of exactly 3 from two start states, budget permitting) over 2 object ids from '
             'several start states; random histories up to 25 (thorough 80) commands over <= 10 ids with '
-            '==-aliases (1/1.0/True, 0/0.0/False, None). Non-trivial = some command evicted or merged an '
+            '==-aliases (1/1.0/True, 0/0.0/False, None). Round 3: OneToOne arguments travel to the model as '
+            'written (kind + raw pairs, dict arguments with a key written twice); one-shot iterators the caller '
+            'keeps, takes items off (next) and passes again - to update, |=, the constructors, several instances - '
+            'in a fixed family (0/1/2/all items taken first, every first and second consumer) and in a third of the '
+            'random histories; every ManyToMany dump carries the readers len / keys / get / in / m[k] of both sides '
+            'on every id the history mentions plus two it does not. Non-trivial = some command evicted or merged an '
             'existing pair / read from another instance / raised; distinct = distinct history.')
     ASSUMPTIONS = ['keys and values are hashable, == is an equivalence consistent with hash, no NaN',
                    'update/constructor arguments are dicts, lists of pairs, one-shot iterators of pairs, keyword '
                    'arguments or another instance of the same class (non-dict Mapping objects are outside the model)',
+                   'update() with a dict / keyword dict that carries one value under two keys: which key keeps the value '
+                   'is left open (any order of walking that dict is accepted by the oracle); the model walks it in '
+                   'insertion order, like the code',
                    'FrozenDict: "mutating dict operation" = __setitem__ __delitem__ __ior__ update setdefault pop '
                    'popitem clear (re-running __init__ is not an operation of the statement)']
     CORRESPONDENCE_NAME = ('C17.Driver (OneToOne / ManyToMany by value AND heap-level with set-object identities / '
